@@ -171,11 +171,24 @@ def parse_digits_ok(ti: int, ny: int, y0: int, y1: int, y2: int, y3: int, y4: in
 ALPHA = '0123456789-:TW. \n'
 
 
+def _legacy53_text(ti: int, s: str) -> bool:
+    """s is a week string `<year>-W53` of a year in the region of the recorded finding (see week53_ok)."""
+    if TYPES[ti] != 'week' or len(s) < 8 or s[-4:] != '-W53':
+        return False
+    y = 0
+    for ch in s[:-4]:
+        if ch not in '0123456789':
+            return False
+        y = y * 10 + (ord(ch) - 48)
+    return _legacy53(y, 53)
+
+
 def parse_shape_ok(ti: int, s: str) -> bool:
     """
     pre: 0 <= ti < 5
     pre: len(s) <= SLEN
     pre: all(c in ALPHA for c in s)
+    pre: not _legacy53_text(ti, s)
     post: _
     """
     # anything that is not digits in the exact HTML shape is invalid (None), never an exception
@@ -474,3 +487,13 @@ def week_parse_order_ok(ri: int, q: int, a: int, b: int, c: int, d: int, wt: int
     if p1 is None or p2 is None:
         return ret(False)
     return ret((p1 < p2) == ((y1, 53) < (y2, w2)) and (p2 < p1) == ((y2, w2) < (y1, 53)))
+
+
+def parse_week53_ok(a: int, b: int, c: int, d: int) -> bool:
+    """
+    pre: 1 <= a <= 9 and 0 <= b <= 9 and 0 <= c <= 9 and 0 <= d <= 9
+    pre: _legacy53(a * 1000 + b * 100 + c * 10 + d, 53)
+    post: _
+    """
+    # exactly the region parse_shape_ok leaves out: `<year>-W53` for a year of the recorded finding, through the string parser
+    return ret(Inputs.parse_value('week', _dig(a) + _dig(b) + _dig(c) + _dig(d) + '-W53') is None)
